@@ -19,6 +19,8 @@ pub fn main() {
     "replay-isa" => replay_isa(&args[2..]),
     #[cfg(unix)]
     "replay-jit" => crate::native_jit::replay_jit(&args[2..]),
+    #[cfg(unix)]
+    "replay-frame" => crate::native_jit::replay_frame(&args[2..]),
     _ => { eprintln!("unknown command"); std::process::exit(2); }
   }
 }
@@ -28,6 +30,16 @@ fn tmpl_all() {
   use crate::mem;
   println!("fn rb={:x} wb={:x} ww={:x} rw={:x} pw={:x}", mem::memory_read_byte as usize, mem::memory_write_byte as usize,
            mem::memory_write_word as usize, mem::memory_read_word as usize, mem::memory_push_word as usize);
+  {
+    let mut b = [0u8; 128];
+    let n = crate::emitter::Emitter::write_prelude_function(&mut b);
+    println!("frame pre {}", b[..n].iter().map(|x| format!("{:02x}", x)).collect::<String>());
+    let n = crate::emitter::Emitter::write_epilogue_function(&mut b);
+    println!("frame epi {}", b[..n].iter().map(|x| format!("{:02x}", x)).collect::<String>());
+    let e = crate::emitter::Emitter::new(crate::jit::MEMPTR as *const mem::MemoryAreas);
+    let n = e.encode_epilogue(&mut b);
+    println!("frame bepi {}", b[..n].iter().map(|x| format!("{:02x}", x)).collect::<String>());
+  }
   let probes: [(u8, u8); 6] = [(0x00, 0x00), (0xff, 0xff), (0x55, 0xaa), (0xa5, 0x3c), (0x01, 0x80), (0x7f, 0xfe)];
   let emitter = crate::emitter::Emitter::new(crate::jit::MEMPTR as *const mem::MemoryAreas);
   for (b0, cb) in all_encodings() {
